@@ -13,7 +13,7 @@
 //	          doc/queries.md parses to the query it was rendered from; malformed pieces at every
 //	          position are rejected;
 //	eval      every structured query of <= 3 (4) clauses over a catalogue tuned to the population,
-//	          parsed by the real parser and evaluated by the real RepoCache on populations of 6-8
+//	          parsed by the real parser and evaluated by the real RepoCache on populations of 6-9
 //	          bugs built through the real cache (several replicas for equal Lamport times), at
 //	          several stages (live cache, reopened cache, after a pull, after further edits),
 //	          against a reference evaluator over bugs read back from git.
@@ -398,8 +398,8 @@ func Main(args []string) {
 	}
 	ev := evidence.Evidence{PropertyID: "C12", Tier: tier, Seed: int(r.seed), Level: "model_checking", Coverage: cov,
 		Assumptions: []string{
-			"the documented language is doc/queries.md plus the statement's sub-qualifier (metadata:key:value): qualifier:value, double quotes around values with spaces or colons, bare or quoted search terms, at most one sort, clauses separated by one space",
-			"where the documentation and the statement are silent the inputs avoid the question (label, title, metadata and search values never differ from population values only by case; search words are whole lower-case words with no near neighbours for the stemmer; the harness checks this and stops otherwise) or every outcome is accepted (other quote character, upper-case keywords, aliases, empty quoted values, doubled colons: never-panic only; several search terms: any set between all-of and any-of; fully tied bugs: any order)",
+			"the documented language is doc/queries.md plus the statement's sub-qualifier (metadata:key:value): qualifier:value, double quotes around values with spaces, colons or apostrophes, bare or quoted search terms, at most one sort, clauses separated by one space; double quotes delimit and an apostrophe inside them is an ordinary character (values can't, can't reproduce, it's:here, 'tis 'twas, 'quoted' must round-trip for every qualifier kind and evaluate against a bug titled can't reproduce, a label it's, an identity O'Neil, a metadata value it's:here); an unterminated double quote is malformed whatever it contains",
+			"where the documentation and the statement are silent the inputs avoid the question (label, title, metadata and search values never differ from population values only by case; search words are whole lower-case words with no near neighbours for the stemmer; the harness checks this and stops otherwise) or every outcome is accepted (single-quote-delimited values including an apostrophe outside double quotes such as title:can't, upper-case keywords, aliases, empty quoted values: never-panic only; several search terms: any set between all-of and any-of; fully tied bugs: any order)",
 			"sorted by creation / edit means by Lamport time, equal Lamport times by unix stamp (cache/bug_excerpt.go); default order is creation, descending",
 			"the reference reads bugs and identities back from git at the entity level (bug.ReadAll), not from excerpts; interpreting operations into snapshots is C10's subject and trusted here",
 			"free-text search right after a pull through the live cache is not evaluated (index freshness after a merge is C11's subject); the same population is evaluated with search after reopening",
